@@ -413,8 +413,21 @@ def head_override_columns(repo, tier, seed):
     fn = mod.ns["main"]
     I.func_info(fn)
     block = None
+    # the block of main() that applies the overrides: an `if` on constants_inputs that - itself or through module-level
+    # helper functions it calls - writes the stock table through .loc
+    from pyvc.values import FuncVal
+    helpers = {n: v.node for n, v in mod.ns.items() if isinstance(v, FuncVal) and isinstance(getattr(v, "node", None), ast.FunctionDef) and n != "main"}
+
+    def text(n, depth=0):
+        out = [ast.unparse(n)]
+        if depth < 3:
+            for c in ast.walk(n):
+                if isinstance(c, ast.Call) and isinstance(c.func, ast.Name) and c.func.id in helpers:
+                    out.append(text(helpers[c.func.id], depth + 1))
+        return "\n".join(out)
+
     for st in fn.node.body:
-        if isinstance(st, ast.If) and "constants_inputs" in ast.unparse(st.test) and "_head_start" in ast.unparse(st):
+        if isinstance(st, ast.If) and "constants_inputs" in ast.unparse(st.test) and ".loc[" in text(st) and "df_animal_stock_info" in ast.unparse(st):
             block = st
     out = []
     if block is None:
